@@ -176,6 +176,9 @@ def check_filter(ctx, F, cfg, type_path, acc_of, elem_ty, conv_ref, key, flag=No
         ctx.oblige(key + "|returns-output|%d" % i, good, "the result after the loop is %s, not Ok(<the list built>)" % S.show(r)[:80], cfg=cfg, where=where, nontrivial=False)
         if good:
             outs.add(normal(r[2][0]))
+        if "abort" in [t[0] for t in p.trace]:
+            ctx.oblige(key + "|drains|abort|%d" % i, False, "the element loop is abandoned at an error but the decoder goes on: elements that were not read stay in the input", cfg=cfg, where=where)
+            continue
         if "break" in [t[0] for t in p.trace]:
             ctx.oblige(key + "|drains|%d" % i, nk == S.OK and ok_known == S.NONE and not muts and not convs,
                        "the element loop is left when %s: elements that were not read stay in the input (the rest of the array would be read as the next parameter)" % [S.show_atom(a) for a in p.atoms][-2:], cfg=cfg, where=where)
